@@ -231,6 +231,27 @@ impl<C: Suite> Model for M07<C> {
                     let a1 = <C as BlsSignatureCore>::aggregate_public_keys(keys.iter().map(|k| k.0));
                     let a2 = <C as BlsMultiKey>::from_public_keys(keys.iter().map(|k| k.0));
                     o.expect(&format!("C07:trait-key-accumulation-agrees:{}", g), a1 == mpk.0 && a2 == mpk.0, "equal", "differ");
+                    // the same lists as iterators of every shape (size hints exact, absent, partial)
+                    if n <= 16 {
+                        let raw_keys: Vec<PkP<C>> = keys.iter().map(|k| k.0).collect();
+                        let raw_sigs: Vec<SgP<C>> = sigs.iter().map(|x| *x.as_raw_value()).collect();
+                        for ((shape, it1), (_, it2)) in iterator_shapes(&raw_keys).into_iter().zip(iterator_shapes(&raw_keys)) {
+                            let b1 = <C as BlsSignatureCore>::aggregate_public_keys(it1);
+                            let b2 = <C as BlsMultiKey>::from_public_keys(it2);
+                            o.expect(&format!("C07:trait-key-accumulation-iterator-shape:{}:{}", g, shape), b1 == mpk.0 && b2 == mpk.0, "the same accumulated key", "differs");
+                        }
+                        for ((shape, it1), (_, it2)) in iterator_shapes(&raw_sigs).into_iter().zip(iterator_shapes(&raw_sigs)) {
+                            let b1 = <C as BlsSignatureCore>::aggregate_signatures(it1);
+                            let b2 = <C as BlsMultiSignature>::from_signatures(it2);
+                            o.expect(&format!("C07:trait-signature-accumulation-iterator-shape:{}:{}", g, shape), b1 == *ms.as_raw_value() && b2 == b1, "the same accumulated signature", "differs");
+                        }
+                        if s == Scheme::Pop {
+                            for (shape, it) in iterator_shapes(&raw_keys) {
+                                let tv = guard(|| <C as BlsSignaturePop>::multi_sig_verify(it, *ms.as_raw_value(), &msg));
+                                o.expect(&format!("C07:trait-multi_sig_verify-iterator-shape:{}:{}", g, shape), matches!(tv, Ok(Ok(()))) == acc && tv.is_ok(), verdict(&v), verdict(&tv));
+                            }
+                        }
+                    }
                     let s1 = <C as BlsSignatureCore>::aggregate_signatures(sigs.iter().map(|x| *x.as_raw_value()));
                     let s2 = <C as BlsMultiSignature>::from_signatures(sigs.iter().map(|x| *x.as_raw_value()));
                     o.expect(&format!("C07:trait-signature-accumulation-agrees:{}", g), s1 == *ms.as_raw_value() && s2 == s1, "equal", "differ");
